@@ -64,6 +64,27 @@ theorem snapshot_maximal (ops : List Op) (hops : ops.length < U64) (b : Nat) :
     have := Juno.C20.snapshot_maximal (cur := cur) h b
     exact ⟨fun hb => ⟨(this.1 hb).1, (this.1 hb).2.2⟩, this.2⟩
 
+/-- **The reader entry point aligns to the CANONICAL head.** In every state a reader can run
+against — any storage reachable by writer operations, any canonical height (advanced or reverted
+arbitrarily relative to the storage), and ANY cached `highestBlockHeader` (absent, behind, equal,
+ahead of the local head) — the view `Synchronizer.PreConfirmedChain` hands out is never empty,
+yields `Length()` entries, and its blocks are `height+1, height+2, …`: it starts exactly one above
+the canonical head (so its base `oldest-1` is the canonical head) — the snapshot when the storage
+holds slot `height+1`, the empty fallback block otherwise. The cached header is a component of the
+state that the result does not depend on (`reader_view_ignores_cached_header`). -/
+theorem reader_view_starts_above_canonical_head (ops : List Op) (hops : ops.length < U64)
+    (height : Nat) (cached : Option Nat) (fallbackDiff : Diff) :
+    let v := readerView height cached (run ops) fallbackDiff
+    0 < v.length ∧ v.newestFirst.length = v.length ∧
+    v.oldestFirst.map (·.number) = List.range' (height + 1) v.length :=
+  readerView_spec (run_wf ops hops) height cached fallbackDiff
+
+/-- the transcription of `PreConfirmedChain` does not read the cached header: two states that differ
+only in it give the same view (a code change that aligns to `highestBlockHeader` makes the driver's
+answers differ from the code's, and the harness' oracle fires in the windows where the two differ) -/
+theorem reader_view_ignores_cached_header (height : Nat) (c₁ c₂ : Option Nat) (s : Store) (d : Diff) :
+    readerView height c₁ s d = readerView height c₂ s d := rfl
+
 /-- The stored chain itself is always well formed: its linked list is nil-terminated after
 exactly `length` nodes (so no iterator or `replaceSlot` walk can run off the list), it is never
 empty when published, it is gap-free, and `length-1 ≤ tip`: the subtractions of
@@ -395,6 +416,9 @@ example : hist.length < U64 := by decide
 example : (snapshotFor (run hist) 12).length = 2 := by decide
 example : (snapshotFor (run hist) 12).oldestFirst.map (·.number) = [12, 13] := by decide
 example : (snapshotFor (run hist) 11).length = 0 := by decide
+-- reader entry point: head 11 → the stored [12,13]; head reverted to 10 (cached header still 13) → fallback block 11
+example : (readerView 11 (some 13) (run hist) {}).oldestFirst.map (·.number) = [12, 13] := by decide
+example : (readerView 10 (some 13) (run hist) {}).oldestFirst.map (·.number) = [11] := by decide
 example : (txByHash (snapshotFor (run hist) 12) 4).map (·.tag) = some 4 := by decide
 example : txByHash (snapshotFor (run hist) 12) 1 = none := by decide
 example : (receiptByHash (snapshotFor (run hist) 12) 2).map (·.2) = some 12 := by decide
